@@ -1,5 +1,6 @@
 """C05 — each edit has exactly its documented effect (refinement of the executable spec = the Lean model)."""
 from .. import hg as MH
+from ..core import unlisted_violations  # noqa: E402
 from ..core import TRUSTED_COMMON, build_and_audit, finish
 from ..sm import run_sm
 
@@ -56,7 +57,7 @@ def run(ctx):
     for d in ctx.extra.get("disagreements", []):
         ctx.violation(d["ops"][-1]["op"], "differs-from-spec:" + ",".join(d["fields"]), {"class": "Hypergraph", "ops": d["ops"]},
                       detail=f"model {d['model']} impl {d['impl']}"[:600])
-    if not ok and not ctx.violations:
+    if not ok and not unlisted_violations(ctx):
         ctx.violation("model-tie", "unproven", {"broken": ctx.broken}, detail="; ".join(ctx.broken)[:500], kind="unproven", broken=ctx.broken)
     ctx.assumptions = ["IDs restricted to int/str/tuple-of-atoms/None", "attribute dict key order is not compared (merge rule 'union' iterates a set of strings)"]
     return finish(ctx, trusted_base=TRUSTED_COMMON)
